@@ -7,6 +7,7 @@ class Matter:
     number_density: Quantity = None # number density
     volume: Quantity = None         # volume
     mass: Quantity = None           # mass
+    number_density_given: bool = False # number density is the input, mass density is derived from it
 
     def __init__(self, 
         number_density:Quantity=None, mass_density:Quantity=None, volume:Quantity=None
@@ -20,10 +21,11 @@ class Matter:
         self.number_density = number_density
         self.mass_density = mass_density
         self.volume = volume
+        self.number_density_given = number_density is not None and mass_density is None
 
     def _norm(self):
       # setup densities of the composite
-        if self.mass_density:
+        if self.mass_density and not self.number_density_given:
             self.mass_density.to(Units.MASS_DENSITY)
             self.number_density = (self.mass_density/self.composite_mass).to(Units.NUMBER_DENSITY)
         elif self.number_density: # !! number density of a composite, not sum of all its components
